@@ -15,10 +15,10 @@ func init() {
 		DesignRef: "DESIGN.md §5 C09",
 		Level: "Decides that deletableBlocks sorts the blocks newest-first by their maximum time before either retention pass looks at them, that both passes mark a block only as part of a suffix blocks[i:] of that order (so no block newer than a retained one is marked), that the size pass starts its sum from the head's on-disk size, " +
 			"that retention code cannot reach head truncation, head garbage collection or WAL truncation, that reloadBlocks marks every parent of every loadable block deletable (also when the parent no longer loads), never loads a deletable block, and swaps the block list before deleting anything.",
-		Note:     "Trusted: go/packages, go/types, go/cfg, module-internal call graph; rule tables in checker/c09.go.",
-		Covers:   "deletableBlocks, BeyondTimeRetention, BeyondSizeRetention, DB.blocksToDelete wiring, DB.reloadBlocks, DB.deleteBlocks.",
-		NotCover: "the threshold arithmetic (time difference, cumulative size, percentage), equality ties.",
-		Run:      runC09,
+		Note:           "Trusted: go/packages, go/types, go/cfg, module-internal call graph; rule tables in checker/c09.go.",
+		Covers:         "deletableBlocks, BeyondTimeRetention, BeyondSizeRetention, DB.blocksToDelete wiring, DB.reloadBlocks, DB.deleteBlocks.",
+		NotCover:       "the threshold arithmetic (time difference, cumulative size, percentage), equality ties.",
+		Run:            runC09,
 		MinObligations: 25,
 	})
 }
